@@ -444,6 +444,29 @@ def splitEdge (g : G) (i j : Nat) : Outcome G :=
 def contract (g : G) (i j : Nat) : G :=
   Families.removeVertex ((g.nbrs j).foldl (fun h v => Families.addEdge h i v) g) j
 
+/-- one step of a sequence of in-place transformations of an `EditableGraph` -/
+inductive TOp where
+  | c (i j : Nat)      -- Contract(g, i, j)
+  | s (i j : Nat)      -- SplitEdge(g, i, j)
+
+/-- the step as the definitions of `Spec/Families.lean` prescribe it -/
+def tstepSpec (g : G) : TOp → Outcome G
+  | .c i j => .ok (Families.contract g i j)
+  | .s i j => if i == j then .panic else .ok (Families.splitEdge g i j)
+
+/-- the step as the code performs it (through the elementary edits) -/
+def tstepModel (g : G) : TOp → Outcome G
+  | .c i j => .ok (contract g i j)
+  | .s i j => splitEdge g i j
+
+/-- apply a sequence of steps, keeping every intermediate graph -/
+def tseq (step : G → TOp → Outcome G) : G → List TOp → Outcome (List G)
+  | _, [] => .ok []
+  | g, op :: ops => do
+    let h ← step g op
+    let rest ← tseq step h ops
+    pure (h :: rest)
+
 /-! ## `*SparseGraph`: `NewSparse` and the observers -/
 
 structure Sparse where
